@@ -299,35 +299,39 @@ NOT_YET = {}
 # what rounds 2 and 3 of the seeded changes added to each check (appended to the text above)
 LATER = {
  'C01': 'Also: a string-form compound command with environment=, and words on which the real quoting functions '
-        'drift from Quote.tla (Escape_Trace.tla) as directed words at every position.',
- 'C02': 'Also: a string-form compound command with environment=, and drift-directed words as for C01.',
+        'drift from Quote.tla (Escape_Trace.tla) as directed words at every position. Rounds 4-5: string-form options written bare / double-quoted / single-quoted; an argument inside $CC (tool_word); the link text of a symbolic-link copy with description= (sym_arg).',
+ 'C02': 'Also: a string-form compound command with environment=, and drift-directed words as for C01. Rounds 4-5: as C01 (tool_word, sym_arg, quoting styles).',
  'C03': 'Scripts also contain implicit precompiled-header steps next to generated headers, extra_deps=, explicitly '
-        'passed header files and tests whose command names further built files.',
+        'passed header files and tests whose command names further built files. Rounds 4-5: always-outdated steps with one and two outputs; copies and symbolic links of built files (a link need not be re-made, its consumers are out of date like the file\'s); extra_deps on copies.',
  'C04': 'Roles also cover the name as an install / uninstall argument (executable, header). The seven escape functions '
-        'of the writers are compared with Quote.tla on all short words (Escape_Trace.tla); drifting inputs become names.',
+        'of the writers are compared with Quote.tla on all short words (Escape_Trace.tla); drifting inputs become names. Rounds 4-5: roles depfile (object name) and header (header name, deleted once unused); % names are in scope.',
  'C05': 'Targets in sub-directories (within_directory with non-empty target directory), sources sharing the tail of the '
-        'target directory, names and stems with blank, # and $.',
- 'C06': 'Every script carries global compile, link and static-link options, which meet the flags from the environment.',
+        'target directory, names and stems with blank, # and $. Rounds 4-5: prefix-sibling references (../sub2 next to 2/); one output named by two steps of ten kinds must be rejected on both backends.',
+ 'C06': 'Every script carries global compile, link and static-link options, which meet the flags from the environment. Rounds 4-5: steps with environments (compound string, several lines, list form); a copy with extra_deps through a recording copy tool.',
  'C07': 'A precompiled-header mode (Incr.tla constant Pch), a second source under paths with blank / # / $, and one '
-        'directed include-build-drop-delete-recreate history per in-scope header name and backend.',
+        'directed include-build-drop-delete-recreate history per in-scope header name and backend. Rounds 4-5: a project with 70/150 sources (clean leaves nothing, rebuild recreates everything, a common header change recompiles every object); header names with several %.',
  'C08': 'Variants include a tree of submodules (every script and options.bfg edited), and directed two-step histories '
-        'in which a first change must not disable the detection of the second.',
+        'in which a first change must not disable the detection of the second. Rounds 4-5: searched directory removed / renamed; the script stops searching and gains a submodule; the known dist-order difference is a SOFT rejection (the rest of the history is still validated).',
  'C09': 'Half of the end-to-end histories name the compiler by a bare command name resolved through the configure-time '
-        'PATH (C++ compiler guessed as its sibling) and run later steps with a PATH without compilers.',
+        'PATH (C++ compiler guessed as its sibling) and run later steps with a PATH without compilers. Rounds 4-5: cross-compilation target without default prefix in the round trips; system_executable looked up on the configure-time PATH.',
  'C11': 'Every second leaf directory is a symbolic link to a populated directory outside the tree; every second case '
-        'first uses the same filter with dist=False.',
+        'first uses the same filter with dist=False. Rounds 4-5: the literal base directory of a pattern may itself be a symbolic link.',
  'C12': 'All ordered triples of nine related locations for commonprefix / uniquetrees.',
  'C13': 'The trailer uses every builtin that makes a file object (zoo.py), a step with outputs in several directories, '
-        'a relative -I in the configured CPPFLAGS; one project per backend is configured with the real gcc.',
+        'a relative -I in the configured CPPFLAGS; one project per backend is configured with the real gcc. Rounds 4-5: system_executable; regeneration of the saved configuration under another PATH.',
  'C15': 'A versioned shared library reached only through another shared library is part of the run-time closure; the '
         'installed program is started with the build directory moved away; documented leaf placement per kind; every '
-        'configured directory is relocated below the scratch directory.',
+        'configured directory is relocated below the scratch directory. Rounds 4-5: run-time search path of every installed shared object.',
  'C16': 'The library option also takes pre-built library files (six names, a decoy beside the shared ones); the pch '
-        'option also covers shared and static libraries.',
+        'option also covers shared and static libraries. Rounds 4-5: include directory also listed in the configure-time CPATH.',
  'C18': 'The trailer uses every builtin that makes a file object out of a source-tree file (zoo.py); after the first '
-        'archive single tree changes (extra_dist directory, extra file, find_files match) must reach the next archive.',
- 'C19': 'Project arguments whose names start with x (x11, xml) with the --x- spelling.',
- 'C20': 'MSBuild histories use several explicit defaults.',
+        'archive single tree changes (extra_dist directory, extra file, find_files match) must reach the next archive. Rounds 4-5: an optional submodule whose script raises; bzip2 and zip archives have the same members as the gzip one.',
+ 'C19': 'Project arguments whose names start with x (x11, xml) with the --x- spelling. Rounds 4-5: declarations with an alias name.',
+ 'C10': 'Rounds 4-5: an existing build directory configured again with other settings and interrupted at every mutation point '
+        '(followed by make and an explicit regenerate); seven ways in which a script gives up.',
+ 'C14': 'Rounds 4-5: a second consumer at another depth; two whole archives in one link; diamonds over four libraries.',
+ 'C17': 'Rounds 4-5: a requirement that comes with a package of the library next to an explicit one (auto_fill=True).',
+ 'C20': 'MSBuild histories use several explicit defaults. Rounds 4-5: project names differing only in their directory part.',
 }
 
 
